@@ -201,6 +201,9 @@ func runC18(c *Ctx, r *Report, tier string) {
 		if c.term(call.Call.Args[0]) == "Parser.Command(completion.parser(P0))" {
 			continue // the initial context
 		}
+		// the word is resolved in the parser's own command table (names AND aliases)
+		recv := c.term(call.Call.Args[0])
+		r.Check(strings.HasPrefix(recv, "lookup(lookup.commands(&parseState.lookup("), "TOKENS", cpn, "command words resolved through the lookup table", c.ipos(in), "s.lookup.commands[word]", "the context is switched to "+trunc(recv, 100)+": aliases (or the parser's own table) are bypassed")
 		_, ok := c.Requires(cp, isInstr(in), func(l Lit) bool {
 			return !l.Pos && strings.HasPrefix(l.Term, "nonempty(parseState.positional(")
 		}, nil)
@@ -210,6 +213,24 @@ func runC18(c *Ctx, r *Report, tier string) {
 	for _, in := range c.instrs(cp, c.isCallTo("(*completion).skipPositional")) {
 		t := c.term(in.(*ssa.Call).Call.Args[2])
 		r.Check(strings.HasPrefix(t, "(len(parseState.args(") && strings.HasSuffix(t, ")) - 1)"), "TOKENS", cpn, "positionals skipped for the words already typed", c.ipos(in), "skipPositional(s, len(s.args)-1): the last word is the one being completed", "skips "+trunc(t, 80)+" positionals: the partial last word is counted as typed")
+	}
+	// value completion asks the value itself first, whether or not it is addressable
+	if cvf := c.Fn("(*completion).completeValue"); cvf != nil {
+		for _, b := range c.blocks(cvf) {
+			for _, in := range b.Instrs {
+				ta, ok := in.(*ssa.TypeAssert)
+				if !ok || typeName(ta.AssertedType) != "Completer" || !(strings.HasPrefix(c.term(ta.X), "call:(reflect.Value).Interface(P1") || strings.HasPrefix(c.term(ta.X), "call:(reflect.Value).Interface(phi{P1")) {
+					continue
+				}
+				var extra []string
+				for _, d := range c.controlDeps(cvf, b) {
+					if l, ok := c.edgeLit(d.B, d.Succ); ok && strings.Contains(l.Term, "CanAddr(") {
+						extra = append(extra, l.String())
+					}
+				}
+				r.Check(len(extra) == 0, "REATTACH", c.fname(cvf), "the value itself is asked for completions unconditionally", c.ipos(in), "value.Interface().(Completer) does not depend on addressability", "the value is probed only under "+strings.Join(extra, "; ")+": a pointer-typed value whose type implements Completer is never asked")
+			}
+		}
 	}
 	r.Check(nFill >= 2, "TOKENS", cpn, "context comes from fillParseState", c.pos(cp.Pos()), fmt.Sprintf("%d calls (root and on each command word)", nFill), "completion does not switch context with fillParseState")
 	// argument skipping condition
